@@ -28,7 +28,8 @@ SHAPES = (((), {}), ((1,), {}), ((1, 'x'), {}), ((), {'k': 2}),
           ((1,), {'k': 2}), ((1, 'x'), {'k': 2}))
 NAMES = ('a', 'b', 'c', 'zz')
 ACTIONS = (None, ('remove', 0), ('remove', 1), ('remove', 2), ('add', 0),
-           ('add', 1), ('add', 2), ('nested',))
+           ('add', 1), ('add', 2), ('nested',), ('drop', 0), ('drop', 1),
+           ('drop', 2))
 
 
 class Boom(Exception):
@@ -58,6 +59,10 @@ class Rec(Ordered):
             ctx.driver.do_add(ctx, action[1])
         elif action[0] == 'nested':
             ctx.driver.do_dispatch(ctx, 'b', ('nested',), {})
+        elif action[0] == 'drop':
+            # the program drops its last reference to handler j (weakly
+            # held by the dispatcher: it ceases to be registered)
+            ctx.driver.do_drop(ctx, action[1], by=self.idx)
         elif action[0] == 'raise':
             ctx.actions = (None, None, None)    # raise once
             raise Boom()
@@ -197,6 +202,8 @@ class DispatchDriver:
             return out
         ops = []
         for i in range(3):
+            if ctx.handlers[i] is None:
+                continue        # dropped: the object no longer exists
             ops.append(('add', i))
             if i in ctx.registered:
                 ops.append(('remove', i))
@@ -207,21 +214,36 @@ class DispatchDriver:
 
     # primitive steps shared by operations and scripted callbacks
     def do_add(self, ctx, i):
+        if ctx.handlers[i] is None:
+            return
         ctx.d.add_handler(ctx.handlers[i])
         ctx.registered.add(i)
         for fr in ctx.frames:
             fr['added'].add(i)
 
     def do_remove(self, ctx, i):
+        if ctx.handlers[i] is None:
+            return
         ctx.d.remove_handler(ctx.handlers[i])
         ctx.registered.discard(i)
         for fr in ctx.frames:
             fr['removed'].add(i)
 
+    def do_drop(self, ctx, i, by=None):
+        if ctx.handlers[i] is None or i == by:
+            return      # a handler cannot lose its own last reference here
+        ctx.handlers[i] = None
+        if i in ctx.registered:
+            ctx.hits['handler_dies_during_dispatch'] += 1
+        ctx.registered.discard(i)
+        for fr in ctx.frames:
+            fr['removed'].add(i)
+            fr['dead'].add(i)
+
     def do_dispatch(self, ctx, name, args, kwargs):
         frame = dict(name=name, args=args, kwargs=kwargs,
                      at_call=set(ctx.registered), added=set(), removed=set(),
-                     got=[], depth=len(ctx.frames))
+                     dead=set(), got=[], depth=len(ctx.frames))
         ctx.frames.append(frame)
         try:
             result = ctx.d.dispatch(name, *args, **kwargs)
@@ -311,6 +333,8 @@ class DispatchDriver:
         if ctx.handlers is None:
             return None
         for i, h in enumerate(ctx.handlers):
+            if h is None:
+                continue
             if ctx.d.is_handler(h) != (i in ctx.registered):
                 raise Violation('is_handler_tracks_registration',
                                 f'is_handler(h{i}) = {ctx.d.is_handler(h)}, '
@@ -320,9 +344,11 @@ class DispatchDriver:
     def key(self, ctx):
         names = {}
         if ctx.handlers:
-            names = {id(h): f'h{i}' for i, h in enumerate(ctx.handlers)}
+            names = {id(h): f'h{i}' for i, h in enumerate(ctx.handlers)
+                     if h is not None}
+        alive = tuple(h is not None for h in (ctx.handlers or ()))
         return (canon((ctx.d,), lambda o: names.get(id(o))), ctx.config,
-                tuple(sorted(ctx.registered)))
+                tuple(sorted(ctx.registered)), alive)
 
 
 # -- (a2) an *enabled* dispatcher that still holds a backlog ------------------
@@ -344,7 +370,7 @@ def run_backlog(case):
     acts[actor] = (action,)
     ctx.actions = tuple(acts)
     release = dict(name='<release>', args=(), kwargs={}, at_call=set(),
-                   added=set(), removed=set(), got=[], depth=0)
+                   added=set(), removed=set(), dead=set(), got=[], depth=0)
     ctx.frames.append(release)
     aborted = False
     try:
@@ -535,7 +561,8 @@ def run(tier, rep):
         'attribute inheritance already makes the first base win)',
         'remove_handler of a handler that is not registered is not exercised',
     ]
-    rep.require_hits(double_registration=1, unknown_event=1,
+    rep.require_hits(handler_dies_during_dispatch=1,
+                     double_registration=1, unknown_event=1,
                      reentrant_remove=1, reentrant_add=1, reentrant_nested=1,
                      args_and_kwargs=1, extends_inherited=1,
                      overrides_inherited=1, mixin_base=1)
